@@ -1,0 +1,63 @@
+//go:build verif
+
+package tbtc
+
+import (
+	"context"
+
+	"github.com/ipfs/go-log/v2"
+
+	"github.com/keep-network/keep-core/pkg/protocol/group"
+	"github.com/keep-network/keep-core/pkg/protocol/inactivity"
+	"github.com/keep-network/keep-core/pkg/tecdsa/dkg"
+)
+
+// Verification hook (build tag verif): re-exports existing identifiers only.
+
+const (
+	VerifC47DkgResultSubmissionDelayStepBlocks       = dkgResultSubmissionDelayStepBlocks
+	VerifC47DkgResultApprovalDelayStepBlocks         = dkgResultApprovalDelayStepBlocks
+	VerifC47InactivityClaimSubmissionDelayStepBlocks = inactivityClaimSubmissionDelayStepBlocks
+)
+
+// VerifC47DkgSubmitResult runs dkgResultSubmitter.SubmitResult.
+func VerifC47DkgSubmitResult(
+	ctx context.Context,
+	logger log.StandardLogger,
+	chain Chain,
+	groupParameters *GroupParameters,
+	groupSelectionResult *GroupSelectionResult,
+	waitForBlockFn func(context.Context, uint64) error,
+	memberIndex group.MemberIndex,
+	result *dkg.Result,
+	signatures map[group.MemberIndex][]byte,
+) error {
+	return newDkgResultSubmitter(
+		logger,
+		chain,
+		groupParameters,
+		groupSelectionResult,
+		waitForBlockFn,
+	).SubmitResult(ctx, memberIndex, result, signatures)
+}
+
+// VerifC47InactivitySubmitClaim runs inactivityClaimSubmitter.SubmitClaim.
+func VerifC47InactivitySubmitClaim(
+	ctx context.Context,
+	logger log.StandardLogger,
+	chain Chain,
+	groupParameters *GroupParameters,
+	groupMembers []uint32,
+	waitForBlockFn func(context.Context, uint64) error,
+	memberIndex group.MemberIndex,
+	claim *inactivity.ClaimPreimage,
+	signatures map[group.MemberIndex][]byte,
+) error {
+	return newInactivityClaimSubmitter(
+		logger,
+		chain,
+		groupParameters,
+		groupMembers,
+		waitForBlockFn,
+	).SubmitClaim(ctx, memberIndex, claim, signatures)
+}
